@@ -125,10 +125,16 @@ int main()
     printf("%s", toks[0]);
     int f = atoi(kvget(toks, n, "f"));
     char api = kvget(toks, n, "api")[0];
-    size_t blen; uint8_t* buf = unhex(kvget(toks, n, "buf"), &blen);
+    char* bufspec = strdup(kvget(toks, n, "buf"));
+    char* bs[16]; int nbufs = splitc(bufspec, '/', bs, 16);
+    uint8_t* bufs[16]; size_t blens[16];
+    for (int i = 0; i < nbufs; i++) bufs[i] = unhex(bs[i], &blens[i]);
     char* items = strdup(kvget(toks, n, "items"));
     char* scripts = strdup(kvget(toks, n, "scripts"));
     int flags = ((f & 1) ? SCAN_FLAGS_REPORT_RULES_MATCHING : 0) | ((f & 2) ? SCAN_FLAGS_REPORT_RULES_NOT_MATCHING : 0);
+    // x: unrelated scan flags given together with the report flags (bit0 FAST_MODE, bit2 NO_TRYCATCH)
+    int x = atoi(kvget(toks, n, "x"));
+    flags |= ((x & 1) ? SCAN_FLAGS_FAST_MODE : 0) | ((x & 4) ? SCAN_FLAGS_NO_TRYCATCH : 0);
 
     YR_COMPILER* comp = NULL; YR_RULES* rules = NULL; YR_SCANNER* sc = NULL;
     yr_compiler_create(&comp);
@@ -166,6 +172,7 @@ int main()
       for (int k = 0; k < nss; k++)
       {
         CB cb = {strcmp(ss[k], "-") ? ss[k] : "", 0};
+        uint8_t* buf = bufs[k % nbufs]; size_t blen = blens[k % nbufs];
         if (k) printf(" |");
         if (api == 'r') rc = yr_rules_scan_mem(rules, buf, blen, flags, scan_cb, &cb, 0);
         else
@@ -181,7 +188,8 @@ int main()
     if (sc) yr_scanner_destroy(sc);
     if (rules) yr_rules_destroy(rules);
     if (comp) yr_compiler_destroy(comp);
-    free(buf); free(items); free(scripts);
+    for (int i = 0; i < nbufs; i++) free(bufs[i]);
+    free(bufspec); free(items); free(scripts);
   }
   yr_finalize();
   free(line);
